@@ -270,6 +270,11 @@ def unaryop(it, op, v, node):
                 return VConst(~v.value)
         except Exception:
             return VUnknown("unary", "unknown")
+    if op == "Invert" and isinstance(v, VTens):
+        # ~mask on a boolean tensor / array: element-wise negation
+        r = it.fresh(T.app("lnot", v.term) if v.term is not None else None, v.shape, v.kind, node)
+        r.obj.valkind = v.obj.valkind
+        return r
     if op == "USub":
         if isinstance(v, VNum):
             return VNum(v.kind, -v.term if v.term is not None else None)
@@ -330,6 +335,8 @@ def compare(it, op, a, b, node):
             r = a.name == b.name
         elif isinstance(a, VObj) and isinstance(b, VObj):
             r = a.inst is b.inst
+        elif isinstance(a, VUnknown) and isinstance(b, VUnknown) and a.kind == b.kind and a.kind in ("dtype", "device", "layout") and a.tag == b.tag:
+            r = True
         elif isinstance(a, VUnknown) or isinstance(b, VUnknown):
             r = None
         else:
@@ -365,6 +372,8 @@ def compare(it, op, a, b, node):
         if r is None:
             return VUnknown("shape-eq", "bool")
         return VConst(r if op == "Eq" else not r)
+    if op in ("Eq", "NotEq") and isinstance(a, VUnknown) and isinstance(b, VUnknown) and a.kind == b.kind and a.kind in ("dtype", "device", "layout") and a.tag == b.tag:
+        return VConst(op == "Eq")  # the dtype / device of one tensor (or of its clone) equals itself
     if isinstance(a, VUnknown) and a.kind == "shape" or isinstance(b, VUnknown) and b.kind == "shape":
         return VUnknown("shape-eq", "bool")
     return VUnknown("cmp", "bool")
